@@ -37,6 +37,10 @@ TOK_CMP_TO_BIGNUM_C = {
 }
 
 
+# Size in bits of the C bignum type (BN_BIT_SIZE in bn.h)
+BN_BIT_SIZE = 256
+
+
 def get_c_common_next_pow2(size):
     # For uncommon expression size, use at least uint8
     size = max(size, 8)
@@ -444,7 +448,7 @@ class TranslatorC(Translator):
                     TOK_INF_EQUAL_UNSIGNED,
             ]:
                 arg0, arg1 = expr.args
-                if expr.size <= self.NATIVE_INT_MAX_SIZE:
+                if arg0.size <= self.NATIVE_INT_MAX_SIZE:
                     size = get_c_common_next_pow2(arg0.size)
                     op = TOK_CMP_TO_NATIVE_C[expr.op]
                     if expr.op in [TOK_INF_SIGNED, TOK_INF_EQUAL_SIGNED]:
@@ -468,12 +472,16 @@ class TranslatorC(Translator):
                     )
                 else:
                     op = TOK_CMP_TO_BIGNUM_C[expr.op]
+                    if expr.op in [TOK_INF_SIGNED, TOK_INF_EQUAL_SIGNED]:
+                        # Signed bignum compare works on BN_BIT_SIZE bits
+                        arg0 = arg0.signExtend(BN_BIT_SIZE)
+                        arg1 = arg1.signExtend(BN_BIT_SIZE)
+                    # The result is a C int
                     out = "bignum_is_%s(%s, %s)" % (
                         op,
-                        arg0,
-                        arg1
+                        self.from_expr(arg0),
+                        self.from_expr(arg1)
                     )
-                    out = "bignum_mask(%s, %d)"% (out, expr.size)
                 return out
 
 
